@@ -14,7 +14,7 @@ WEIGHTS = dict(Shading=6, ShadowOf=3, Reverse=1, Permute=1, SetPlatform=1, Ungro
 def run(tier, seed):
     res = shadow.run_shadow("C11", tier, seed, groups=False)
     rng = random.Random(seed * 275604541 + 11)
-    n = 1500 if tier == "quick" else 40000
+    n = 1500 if tier == "quick" else 12000
     jobs = [aclhist.make_history(rng, t, WEIGHTS, nops=rng.randint(1, 4), n=rng.randint(3, 10), groups=False) for t in range(1, n + 1)]
     aclhist.fill_permutations(rng, jobs)
     rep = aclhist.run_histories("C11", jobs, tier, [core.mc("MC_Acl")],
